@@ -104,6 +104,7 @@ type Event struct {
 	Args    []*Term
 	Results []*Term
 	Site    string
+	ArgTypes, ResTypes []types.Type
 	Maybe   bool // marker: may have happened in an earlier iteration of a loop
 	Cond    int // index into pc at the time (events are path specific anyway)
 }
